@@ -68,7 +68,7 @@ class Fold(ast.NodeVisitor):
         if d in self.env:
             return self.env[d]
         base = self.visit(n.value)
-        if base is NumMod or isinstance(base, np.ndarray) and n.attr in ("reshape", "T", "flatten"):
+        if base is NumMod or isinstance(base, np.ndarray) and n.attr in ("reshape", "T", "flatten", "conjugate", "conj", "transpose"):
             return getattr(base, n.attr)
         if isinstance(base, dict) and n.attr in base:
             return base[n.attr]
